@@ -3,7 +3,7 @@
    Proofs: Proofs/ParserTotal.v, Proofs/ParserDepth.v.  The conversion-level parts of C01 are in Properties_C01.v. *)
 From Coq Require Import String.
 From Coq Require Import List NArith.
-From Wbxml Require Import Model.Codec Model.TablesDefs Gen.TablesData Model.Parser Proofs.ParserTotal Proofs.ParserDepth.
+From Wbxml Require Import Model.Codec Model.TablesDefs Gen.TablesData Model.Parser Proofs.ParserTotal Proofs.ParserDepth Proofs.ParserGrowth.
 Import ListNotations.
 Local Open Scope N_scope.
 
@@ -70,19 +70,34 @@ Theorem C01p_deeper_nesting_refused : forall fuel env n pelt st, MAX_NESTING_DEP
 Proof. exact nesting_refused. Qed.
 Print Assumptions C01p_deeper_nesting_refused.
 
-(* (d) PARTIAL.  Not proved: the global bound  size(events) <= (|bs| + K) * (|bs| + c).  Proved: its two
-   ingredients - an inline string is strictly shorter than the bytes it consumes, and a string-table reference
-   (the only construct that can repeat input) yields at most max(5, |padded table|) bytes per reference, each
-   reference consuming >= 2 bytes: hence the quadratic, not exponential, worst case. *)
-Theorem C01p_growth_inline_partial : forall cs r s t, conv_term cs r = POk (s, t) ->
+(* (d) FULL.  evs_size = sum over the events of the lengths of element names (start and end), attribute names and
+   values, character data, PI targets and data.  For every table, forced language, meta charset, fuel and document:
+   a successful parse delivers at most |bs| * (2 |bs| + 2 K + 122) bytes, K = Kmax tbl = the longest table string
+   (for attribute starts: name + value prefix together).  The proof is a potential argument: every function returns
+   output whose size plus M times the bytes it leaves unread is at most M times the bytes it was given, with
+   M = 2 (K + |padded string table| + 7) + 100 <= 2 |bs| + 2 K + 122: a consumed byte yields at most M output bytes
+   (a string-table reference can repeat the table - hence quadratic; base64 costs a factor 4/3, typed WV / SI
+   values a constant).  Proofs/ParserGrowth.v. *)
+Theorem C01p_growth : forall tbl forced meta fuel bs evs,
+  parse_with tbl forced meta fuel bs = POk evs ->
+  (evs_size evs <= length bs * (2 * length bs + 2 * Kmax tbl + 122))%nat.
+Proof. exact parse_growth. Qed.
+Print Assumptions C01p_growth.
+
+(* its two ingredients, as separate statements *)
+Theorem C01p_growth_inline : forall cs r s t, conv_term cs r = POk (s, t) ->
   (length s + 1 + length t = length r)%nat.
 Proof. exact conv_term_len. Qed.
-Print Assumptions C01p_growth_inline_partial.
+Print Assumptions C01p_growth_inline.
 
-Theorem C01p_growth_reference_partial : forall env i s, get_strtbl_reference env i = POk s ->
+Theorem C01p_growth_reference : forall env i s, get_strtbl_reference env i = POk s ->
   (length s <= Nat.max 5 (match e_strtbl env with Some tb => length tb | None => 0 end))%nat.
 Proof. exact strtbl_ref_len. Qed.
-Print Assumptions C01p_growth_reference_partial.
+Print Assumptions C01p_growth_reference.
+
+(* the constant for the regenerated tables *)
+Example C01p_ex_Kmax : Kmax main_table = 49%nat.
+Proof. vm_compute. reflexivity. Qed.
 
 (* non-vacuity: 1001 nested <wml> elements are accepted by the model, 1002 are refused *)
 Definition nested_doc (k : nat) : bytes := [3; 4; 106; 0] ++ repeat 127 k ++ repeat 1 k.
